@@ -34,6 +34,8 @@ def make_trace(seed, long=False):
         spec["options"]["num_chains"] = 2
     spec["options"]["num_particles"] = r.choice([2, 3])
     spec["options"]["grid_size"] = 11
+    if not long and random.Random(seed ^ 0xC4A1).random() < 0.3:
+        spec["options"]["num_chains"] = random.Random(seed ^ 0xC4A2).choice([5, 8])  # "any chain count"
     h = wp.run_pipeline(spec)
     return spec, h
 
@@ -303,7 +305,7 @@ def run(ctx):
     ctx.cov["reader_calls_identical_to_complete"] = ident
     ctx.cov["reader_exception_types"] = exc_types
     ctx.cov["traces"] = [{"bytes": v[0], "chains": v[1], "entries": v[2], "clustered": v[3]} for v in lens.values()]
-    ctx.cov["rule"] = ("for each of %d simulated runs (1-3 chains, 2-9 entries per chain, clustered or not) EVERY prefix length 0..len-1 of the trace "
+    ctx.cov["rule"] = ("for each of %d simulated runs (1-3, sometimes 5 or 8, chains, 2-9 entries per chain, clustered or not) EVERY prefix length 0..len-1 of the trace "
                        "image is read by map, consensus and topology-report (with archive), in both modes each and through the click commands: one evaluation = one reader call; distinct = "
                        "distinct (trace, prefix length) crash points; the write itself is cut by ENOSPC and by process death at all offsets in "
                        "the first and last 64 bytes and every %d bytes, and once more by the kernel itself (RLIMIT_FSIZE in a forked child: EFBIG or death by SIGXFSZ) whatever path the writer takes to the file; plus runs whose chain worker dies" % (n_traces, 256 if quick else 64))
